@@ -165,6 +165,12 @@ RefDefs == [A |-> Ty("integer") @@ [minimum |-> 1], B |-> Ty("object") @@ [props
             N |-> Ty("object") @@ [props |-> [k |-> <<ka, kb>>, v |-> <<Ty("integer"), S0 @@ [ref |-> "N"]>>], required |-> <<ka>>]]
 RefSchemas == << S0 @@ [ref |-> "A"], S0 @@ [ref |-> "B"], S0 @@ [ref |-> "N"], Ty("array") @@ [items |-> S0 @@ [ref |-> "A"]],
                  Ty("object") @@ [props |-> [k |-> <<kb>>, v |-> <<S0 @@ [ref |-> "B"]>>], required |-> <<kb>>] >>
+Link(next) == Ty("object") @@ [props |-> [k |-> <<ka>>, v |-> <<S0 @@ [ref |-> next]>>], required |-> <<ka>>]
+DeepLeaf == Ty("object") @@ [props |-> [k |-> <<ka, kb, kc>>, v |-> <<RO(Ty("integer")), Ty("string") @@ [minLength |-> 1], Nullable(Ty("integer") @@ [minimum |-> 0])>>],
+                             required |-> <<kb, kc>>]
+DeepDefs == [R1 |-> Link("R2"), R2 |-> Link("R3"), R3 |-> Link("R4"), R4 |-> Link("R5"), R5 |-> Link("R6"), R6 |-> Link("R7"), R7 |-> Link("R8"),
+             R8 |-> Link("R9"), R9 |-> Link("R10"), R10 |-> Link("R11"), R11 |-> Link("R12"), R12 |-> DeepLeaf,
+             T |-> Ty("object") @@ [props |-> [k |-> <<ka, kb>>, v |-> <<RO(Ty("integer")), Ty("array") @@ [items |-> S0 @@ [ref |-> "T"]]>>], required |-> <<kb>>]]
 NoRefDefs == [none |-> S0]
 
 (* ------------------------------------------------------------------------- *)
@@ -222,7 +228,8 @@ ParamLeaves == << Ty("integer") @@ [minimum |-> 0, maximum |-> 3],      \* 1
                   Ty("integer") @@ [minimum |-> 1, exclMin |-> FALSE, maximum |-> 3, exclMax |-> FALSE],   \* 16  draft-4 default spelled out
                   S0 @@ [maxLength |-> 3],                                      \* 17  no type: nothing presentable as valid in the coverage phase
                   Ty("string") @@ [format |-> "uri-reference"],               \* 18  a format whose grammar contains the empty text
-                  Ty("string") @@ [format |-> "hostname"] >>                  \* 19  a format that has no empty member
+                  Ty("string") @@ [format |-> "hostname"],                    \* 19  a format that has no empty member
+                  Ty("string") @@ [pattern |-> OPat(<<94, 40, 97, 98, 41, 43, 36>>), maxLength |-> 5] >>   \* 20  ^(ab)+$ : a repeated GROUP, the bound counts characters
 P(loc, name, req, si) == [loc |-> loc, name |-> name, required |-> req, schema |-> ParamLeaves[si]]
 nQ1 == <<113, 49>>       \* q1
 nQ2 == <<113, 50>>       \* q2
@@ -253,7 +260,7 @@ Bd(media, bi, req) == [media |-> media, schema |-> BodyPool[bi], required |-> re
 MJson == "application/json"
 MText == "text/plain"
 (* parameter / body sets are written as index tuples: <<>>, <<req, leaf>> or <<req, leaf, leaf2>> (second one optional) *)
-LeafIdx(loc) == IF Rich THEN (IF loc = "query" THEN (1..16) \cup {18, 19} ELSE {1, 2, 3, 4, 5, 6, 9, 12, 13, 14, 15, 18, 19}) ELSE (IF loc = "query" THEN {1, 2, 3, 4, 5, 6, 10, 11, 13, 14, 18} ELSE {1, 2, 5, 6, 13, 18})
+LeafIdx(loc) == IF Rich THEN (IF loc = "query" THEN (1..16) \cup {18, 19, 20} ELSE {1, 2, 3, 4, 5, 6, 9, 12, 13, 14, 15, 18, 19}) ELSE (IF loc = "query" THEN {1, 2, 3, 4, 5, 6, 10, 11, 13, 14, 18, 20} ELSE {1, 2, 5, 6, 13, 18})
 QueryIdx == {<<0, 0, 0>>} \cup {<<r, a, 0>> : r \in {1, 2}, a \in LeafIdx("query")}
             \cup {<<r, a, b>> : r \in {1, 2}, a \in (IF Rich THEN LeafIdx("query") ELSE {1, 2, 5, 6}), b \in {1, 2, 6}}
 PathIdx == {<<0, 0, 0>>} \cup {<<2, a, 0>> : a \in LeafIdx("path")} \cup {<<2, a, b>> : a \in {1, 6}, b \in {2, 5}}
@@ -268,7 +275,8 @@ BodyIdxSet == {<<0, 0, 0>>} \cup {<<r, b, 0>> : r \in {1, 2}, b \in (IF Rich THE
 MkBodies(d, x) == IF x[1] = 0 THEN <<>>
                   ELSE IF x[3] = 0 THEN <<Bd(MJson, x[2], x[1] = 2)>>
                   ELSE <<Bd(MJson, x[2], TRUE), Bd(MText, IF d = "2.0" THEN x[2] ELSE x[3], TRUE)>>      \* 2.0: one schema, two `consumes`
-Cfgs == {[allow_x00 |-> x, codec |-> c, security |-> s] : x \in BOOLEAN, c \in {"utf-8", "ascii"}, s \in BOOLEAN}
+(* the two string restrictions are CROSSED: allow_x00 x codec (utf-8 = default, ascii, latin-1, none = no codec) *)
+Cfgs == {[allow_x00 |-> x, codec |-> c, security |-> s] : x \in BOOLEAN, c \in {"utf-8", "ascii", "latin-1", "none"}, s \in BOOLEAN}
 (* the Path Item the operation (always POST) lives in: written inline or behind a local $ref, alone or next to other documented methods *)
 ItemInline == [ref |-> FALSE, also |-> <<>>]
 Items == {[ref |-> r, also |-> a] : r \in BOOLEAN, a \in {<<>>, <<"get">>, <<"get", "put">>}}
@@ -381,7 +389,12 @@ IsOpDesc(x) ==
   \/ Family = "c01" /\ \E d \in {"3.0"}, loc \in {"query", "body"}, pi \in 1..15, l \in {<<1, 3>>, <<Absent, 2>>, <<2, Absent>>, <<2, 2>>, <<3, 5>>} :
         x = (IF loc = "body" THEN Op("pattern+length", d, <<>>, <<[media |-> MJson, schema |-> StrLeaf(l[1], l[2], pi, 0), required |-> TRUE]>>, Cfg0)
              ELSE Op("pattern+length", d, <<[loc |-> loc, name |-> nQ1, required |-> TRUE, schema |-> StrLeaf(l[1], l[2], pi, 0)]>>, <<>>, Cfg0))
-  \/ Family # "c03o" /\ \E a \in {2, 6}, cf \in Cfgs : x = MkOp("config", "3.0", <<2, a, 0>>, None3, <<2, a, 0>>, None3, <<2, 1, 0>>, cf)
+  \/ Family # "c03o" /\ \E a \in {2, 6}, cf \in {cf \in Cfgs : Family = "c01" \/ (cf.codec \in {"utf-8", "ascii"} /\ ~cf.security)} :      \* a string in EVERY location
+        x = MkOp("config", "3.0", <<2, a, 0>>, <<2, a, 0>>, <<2, a, 0>>, <<2, a, 0>>, <<2, 1, 0>>, cf)
+  (* --- references beyond the depth that gets inlined: chains of 9 and 12 $refs and a recursive schema reached through a required
+         reference, with readOnly / nullable / required properties at the far end --- *)
+  \/ Family = "c01" /\ \E d \in AllD, r \in {"R1", "R4", "T"} :
+        x = [Op("deep-ref", d, <<>>, <<[media |-> MJson, schema |-> S0 @@ [ref |-> r], required |-> TRUE]>>, Cfg0) EXCEPT !.defs = DeepDefs]
 
 (* Histories (C03): the coverage cases of operation A, then of operation B, generated in ONE process (labels are objects that *)
 (* live across operations); every ordered pair over a small pool, incl. an operation whose second query parameter has no   *)
@@ -520,6 +533,7 @@ C01_Case(op, c, vs) ==
   ELSE IF vs["body"] = "F" THEN "body-does-not-conform"
   ELSE IF ~op.cfg.allow_x00 /\ 0 \in CaseText(c) THEN "nul-character"
   ELSE IF op.cfg.codec = "ascii" /\ \E x \in CaseText(c) : x > 127 THEN "outside-codec"
+  ELSE IF op.cfg.codec = "latin-1" /\ \E x \in CaseText(c) : x > 255 THEN "outside-codec"
   ELSE IF op.cfg.codec = "utf-8" /\ \E x \in CaseText(c) : x >= 55296 /\ x <= 57343 THEN "outside-codec"
   ELSE "ok"
 (* ---- C02 ---- *)
